@@ -8,17 +8,20 @@
 (*   channel_range_supported; the #[repr(C)] request structures as little-endian byte encoders     *)
 (*   (zerocopy IntoBytes on a little-endian target) and the response structures as field readers   *)
 (*   (zerocopy FromBytes).                                                                          *)
+(* At the end of the file: the three configuration reads of VirtIOSound::new (jacks / streams /    *)
+(* chmaps), the event-queue part of new (OwningQueue::new, the conditional notification) and       *)
+(* latest_notification (OwningQueue::poll, Model/Owning.v, with the closure that decodes a         *)
+(* VirtIOSndEvent), as a state of its own (the event queue shares nothing with the other queues).  *)
 (* Not modelled: VirtIOSound::new's handshake (C08) beyond the resulting state, the rx queue       *)
-(* (never used by the driver), the event queue / latest_notification (OwningQueue: C19; tied by a  *)
-(* monitor), pcm_states (written, never read), padding bytes of the info structures (stored,       *)
-(* never observable), log output.                                                                  *)
+(* (never used by the driver), pcm_states (written, never read), padding bytes of the info         *)
+(* structures (stored, never observable), log output.                                              *)
 (* Everything the environment decides is an argument: share addresses, the device's notification   *)
 (* suppression words, the used-ring words the driver reads, the contents of the receive buffer and *)
 (* of a status structure after pop_used.                                                           *)
 (* Next to its result every operation returns, for each chain it published, what a device reading  *)
 (* device-visible memory at that moment obtains from the chain (dview): this is an observation     *)
 (* computed from the queue state and the Hal memory contract, it never feeds back into the driver. *)
-From VD Require Import Base.Words Model.Queue Model.Blk Model.BlkSpec Model.SoundSpec.
+From VD Require Import Base.Words Model.Queue Model.Owning Model.Blk Model.BlkSpec Model.SoundSpec.
 
 (* ---------- constants of sound.rs ---------- *)
 Definition SND_QUEUE_SIZE : N := 32.
@@ -502,3 +505,101 @@ Definition snd_pcm_xfer_ok_gen (check_status : bool) (s : sstate) (token : N) (u
   end.
 Definition snd_pcm_xfer_ok := snd_pcm_xfer_ok_gen true.
 Definition snd_pcm_xfer_ok_prefix := snd_pcm_xfer_ok_gen false.
+
+(* ======================================================================================================= *)
+(* VirtIOSound::new: the configuration space                                                               *)
+(* #[repr(C)] struct VirtIOSoundConfig { jacks: ReadOnly<u32>, streams: ReadOnly<u32>, chmaps: ReadOnly<u32> }:
+   offsets 0, 4, 8.  `let jacks = read_config!(transport, VirtIOSoundConfig, jacks)?;` then streams, then chmaps:
+   three Transport::read_config_space::<u32> calls.  a0 a1 a2: what the transport answers to them. *)
+Inductive scev := SCRead (off width : N).
+
+Definition snd_read_config (a0 a1 a2 : outcome N) : outcome (N * N * N) * list scev :=
+  match a0 with
+  | Ok j =>
+      match a1 with
+      | Ok st =>
+          match a2 with
+          | Ok c => (Ok (w32 j, w32 st, w32 c), [SCRead 0 4; SCRead 4 4; SCRead 8 4])
+          | Err e => (Err e, [SCRead 0 4; SCRead 4 4; SCRead 8 4])
+          | Panic => (Panic, [SCRead 0 4; SCRead 4 4; SCRead 8 4])
+          | UB => (UB, [SCRead 0 4; SCRead 4 4; SCRead 8 4])
+          end
+      | Err e => (Err e, [SCRead 0 4; SCRead 4 4])
+      | Panic => (Panic, [SCRead 0 4; SCRead 4 4])
+      | UB => (UB, [SCRead 0 4; SCRead 4 4])
+      end
+  | Err e => (Err e, [SCRead 0 4])
+  | Panic => (Panic, [SCRead 0 4])
+  | UB => (UB, [SCRead 0 4])
+  end.
+
+(* pub fn jacks(&self) / streams(&self) / chmaps(&self): the stored fields *)
+Definition snd_counters (s : sstate) : N * N * N := (s_jacks s, s_streams s, s_chmaps s).
+
+(* ======================================================================================================= *)
+(* the event queue: OwningQueue<H, 32, 8>                                                                  *)
+Definition EVT_Q : N := 1.                        (* EVENT_QUEUE_IDX *)
+Definition SND_EVENT_SIZE : N := 8.               (* size_of::<VirtIOSndEvent>() *)
+
+(* OwningQueue::new(VirtQueue::new(&mut transport, EVENT_QUEUE_IDX, ..)?)? and, after finish_init,
+   `if event_queue.should_notify() { transport.notify(EVENT_QUEUE_IDX); }`.
+   start: where the free-running indices of the fresh queue stand (0 in the code; any value, to cover the wrap);
+   addrs: the 32 share answers; ae / uf: the device's suppression words when should_notify is asked *)
+Definition snd_evq_new (dev_features start : N) (addrs : list N) (ae uf : N) : outcome unit * qstate * list oev :=
+  let f := N.land dev_features SND_SUPPORTED in
+  let q0 := qset_indices (qnew SND_QUEUE_SIZE (has_feat f SF_INDIRECT) (has_feat f SF_EVENT_IDX)) start in
+  let '(o, q, evs) := owning_new_loop addrs 0 SND_EVENT_SIZE q0 in
+  match o with
+  | Ok _ => (Ok tt, q, map OQ evs ++ (if should_notify q ae uf then [ONotify] else []))
+  | _ => (o, q, map OQ evs)
+  end.
+
+(* NotificationType::n(value) *)
+Definition snd_ntype_known (code : N) : bool :=
+  (code =? 4352) || (code =? 4353) || (code =? 4096) || (code =? 4097).
+
+(* the closure handed to poll:
+     if let Ok(event) = VirtIOSndEvent::read_from_bytes(buffer) {
+         Ok(Some(Notification { notification_type: NotificationType::n(event.hdr.command_code).ok_or(Error::IoError)?, data: event.data }))
+     } else { Ok(None) }
+   read_from_bytes succeeds iff the slice has exactly size_of::<VirtIOSndEvent>() = 8 bytes. Result: (type code, data) *)
+Definition snd_event_handler (buffer : list N) : outcome (option (N * N)) :=
+  if lenN buffer =? SND_EVENT_SIZE then
+    let code := rd buffer 0 4 in
+    if snd_ntype_known code then Ok (Some (code, rd buffer 4 4)) else Err EIoError
+  else Ok None.
+
+(* what the device shows and the platform answers during one call: used index, used element (id, len), the
+   contents of the completed buffer after the copy-back at unshare, the share answer for the re-posted buffer, the
+   suppression words when should_notify is asked *)
+Record nview := mkNV { nv_idx : N; nv_id : N; nv_len : N; nv_wr : list N; nv_addr : N; nv_ae : N; nv_uf : N }.
+
+(* pub fn latest_notification(&mut self) = self.event_queue.poll(&mut self.transport, closure): OwningQueue::poll
+   (Model/Owning.owning_poll, transcribed again with the closure in place of an abstract handler answer) *)
+Definition snd_latest_notification (q : qstate) (v : nview) : outcome (option (N * N)) * qstate * list oev :=
+  let '(o, q1, evs) := owning_pop q SND_EVENT_SIZE (nv_idx v) (nv_id v) (nv_len v) in
+  match o with
+  | Ok (Some (len, token)) =>
+      let result := if SND_EVENT_SIZE <? len then Err EIoError
+                    else snd_event_handler (firstn (N.to_nat len) (nv_wr v)) in    (* handler(&buffer[0..len]) *)
+      let '(o2, q2, evs2) := owning_readd q1 SND_EVENT_SIZE token (nv_addr v) (nv_ae v) (nv_uf v) in
+      match o2 with
+      | Ok _ => (result, q2, map OQ evs ++ evs2)
+      | Err e => (Err e, q2, map OQ evs ++ evs2)
+      | Panic => (Panic, q2, map OQ evs ++ evs2)
+      | UB => (UB, q2, map OQ evs ++ evs2)
+      end
+  | Ok None => (Ok None, q1, map OQ evs)
+  | Err e => (Err e, q1, map OQ evs)
+  | Panic => (Panic, q1, map OQ evs)
+  | UB => (UB, q1, map OQ evs)
+  end.
+
+(* a run of polls *)
+Fixpoint snd_notif_run (q : qstate) (vs : list nview) : list (outcome (option (N * N))) * qstate :=
+  match vs with
+  | [] => ([], q)
+  | v :: r =>
+      let '(o, q1, _) := snd_latest_notification q v in
+      let '(os, q2) := snd_notif_run q1 r in (o :: os, q2)
+  end.
